@@ -114,7 +114,8 @@ Record cfg := mkCfg {
   autoPingTimeout : N;
   autoPingSize : N;
   autoPingRestartOnAnyTraffic : bool;
-  t_start : N                        (* virtual time of connectionMade *)
+  t_start : N;                       (* virtual time of connectionMade *)
+  c_proxy : bool                     (* client only: factory.proxy is set (explicit HTTP proxy, CONNECT first) *)
 }.
 
 (* class of wasNotCleanReason *)
@@ -184,61 +185,64 @@ Record cstate := mkS {
   pingPending : option N;
   pingSeq : N;
   closingSince : option N;
-  lastPeerClose : option peer_close
+  lastPeerClose : option peer_close;
+  proxyPending : bool
 }.
 
 Definition set_st (v : wstate) (s : cstate) : cstate :=
-  mkS v (now s) (gone s) (closedByMe s) (failedByMe s) (droppedByMe s) (wasClean s) (ncr s) (localCode s) (localReason s) (remoteCode s) (remoteReason s) (wasOpenTO s) (wasCloseTO s) (wasDropTO s) (hOpen s) (hClose s) (hDrop s) (hPing s) (hPingTO s) (nextId s) (timers s) (pingPending s) (pingSeq s) (closingSince s) (lastPeerClose s).
+  mkS v (now s) (gone s) (closedByMe s) (failedByMe s) (droppedByMe s) (wasClean s) (ncr s) (localCode s) (localReason s) (remoteCode s) (remoteReason s) (wasOpenTO s) (wasCloseTO s) (wasDropTO s) (hOpen s) (hClose s) (hDrop s) (hPing s) (hPingTO s) (nextId s) (timers s) (pingPending s) (pingSeq s) (closingSince s) (lastPeerClose s) (proxyPending s).
 Definition set_now (v : N) (s : cstate) : cstate :=
-  mkS (st s) v (gone s) (closedByMe s) (failedByMe s) (droppedByMe s) (wasClean s) (ncr s) (localCode s) (localReason s) (remoteCode s) (remoteReason s) (wasOpenTO s) (wasCloseTO s) (wasDropTO s) (hOpen s) (hClose s) (hDrop s) (hPing s) (hPingTO s) (nextId s) (timers s) (pingPending s) (pingSeq s) (closingSince s) (lastPeerClose s).
+  mkS (st s) v (gone s) (closedByMe s) (failedByMe s) (droppedByMe s) (wasClean s) (ncr s) (localCode s) (localReason s) (remoteCode s) (remoteReason s) (wasOpenTO s) (wasCloseTO s) (wasDropTO s) (hOpen s) (hClose s) (hDrop s) (hPing s) (hPingTO s) (nextId s) (timers s) (pingPending s) (pingSeq s) (closingSince s) (lastPeerClose s) (proxyPending s).
 Definition set_gone (v : bool) (s : cstate) : cstate :=
-  mkS (st s) (now s) v (closedByMe s) (failedByMe s) (droppedByMe s) (wasClean s) (ncr s) (localCode s) (localReason s) (remoteCode s) (remoteReason s) (wasOpenTO s) (wasCloseTO s) (wasDropTO s) (hOpen s) (hClose s) (hDrop s) (hPing s) (hPingTO s) (nextId s) (timers s) (pingPending s) (pingSeq s) (closingSince s) (lastPeerClose s).
+  mkS (st s) (now s) v (closedByMe s) (failedByMe s) (droppedByMe s) (wasClean s) (ncr s) (localCode s) (localReason s) (remoteCode s) (remoteReason s) (wasOpenTO s) (wasCloseTO s) (wasDropTO s) (hOpen s) (hClose s) (hDrop s) (hPing s) (hPingTO s) (nextId s) (timers s) (pingPending s) (pingSeq s) (closingSince s) (lastPeerClose s) (proxyPending s).
 Definition set_closedByMe (v : bool) (s : cstate) : cstate :=
-  mkS (st s) (now s) (gone s) v (failedByMe s) (droppedByMe s) (wasClean s) (ncr s) (localCode s) (localReason s) (remoteCode s) (remoteReason s) (wasOpenTO s) (wasCloseTO s) (wasDropTO s) (hOpen s) (hClose s) (hDrop s) (hPing s) (hPingTO s) (nextId s) (timers s) (pingPending s) (pingSeq s) (closingSince s) (lastPeerClose s).
+  mkS (st s) (now s) (gone s) v (failedByMe s) (droppedByMe s) (wasClean s) (ncr s) (localCode s) (localReason s) (remoteCode s) (remoteReason s) (wasOpenTO s) (wasCloseTO s) (wasDropTO s) (hOpen s) (hClose s) (hDrop s) (hPing s) (hPingTO s) (nextId s) (timers s) (pingPending s) (pingSeq s) (closingSince s) (lastPeerClose s) (proxyPending s).
 Definition set_failedByMe (v : bool) (s : cstate) : cstate :=
-  mkS (st s) (now s) (gone s) (closedByMe s) v (droppedByMe s) (wasClean s) (ncr s) (localCode s) (localReason s) (remoteCode s) (remoteReason s) (wasOpenTO s) (wasCloseTO s) (wasDropTO s) (hOpen s) (hClose s) (hDrop s) (hPing s) (hPingTO s) (nextId s) (timers s) (pingPending s) (pingSeq s) (closingSince s) (lastPeerClose s).
+  mkS (st s) (now s) (gone s) (closedByMe s) v (droppedByMe s) (wasClean s) (ncr s) (localCode s) (localReason s) (remoteCode s) (remoteReason s) (wasOpenTO s) (wasCloseTO s) (wasDropTO s) (hOpen s) (hClose s) (hDrop s) (hPing s) (hPingTO s) (nextId s) (timers s) (pingPending s) (pingSeq s) (closingSince s) (lastPeerClose s) (proxyPending s).
 Definition set_droppedByMe (v : bool) (s : cstate) : cstate :=
-  mkS (st s) (now s) (gone s) (closedByMe s) (failedByMe s) v (wasClean s) (ncr s) (localCode s) (localReason s) (remoteCode s) (remoteReason s) (wasOpenTO s) (wasCloseTO s) (wasDropTO s) (hOpen s) (hClose s) (hDrop s) (hPing s) (hPingTO s) (nextId s) (timers s) (pingPending s) (pingSeq s) (closingSince s) (lastPeerClose s).
+  mkS (st s) (now s) (gone s) (closedByMe s) (failedByMe s) v (wasClean s) (ncr s) (localCode s) (localReason s) (remoteCode s) (remoteReason s) (wasOpenTO s) (wasCloseTO s) (wasDropTO s) (hOpen s) (hClose s) (hDrop s) (hPing s) (hPingTO s) (nextId s) (timers s) (pingPending s) (pingSeq s) (closingSince s) (lastPeerClose s) (proxyPending s).
 Definition set_wasClean (v : bool) (s : cstate) : cstate :=
-  mkS (st s) (now s) (gone s) (closedByMe s) (failedByMe s) (droppedByMe s) v (ncr s) (localCode s) (localReason s) (remoteCode s) (remoteReason s) (wasOpenTO s) (wasCloseTO s) (wasDropTO s) (hOpen s) (hClose s) (hDrop s) (hPing s) (hPingTO s) (nextId s) (timers s) (pingPending s) (pingSeq s) (closingSince s) (lastPeerClose s).
+  mkS (st s) (now s) (gone s) (closedByMe s) (failedByMe s) (droppedByMe s) v (ncr s) (localCode s) (localReason s) (remoteCode s) (remoteReason s) (wasOpenTO s) (wasCloseTO s) (wasDropTO s) (hOpen s) (hClose s) (hDrop s) (hPing s) (hPingTO s) (nextId s) (timers s) (pingPending s) (pingSeq s) (closingSince s) (lastPeerClose s) (proxyPending s).
 Definition set_ncr (v : nreason) (s : cstate) : cstate :=
-  mkS (st s) (now s) (gone s) (closedByMe s) (failedByMe s) (droppedByMe s) (wasClean s) v (localCode s) (localReason s) (remoteCode s) (remoteReason s) (wasOpenTO s) (wasCloseTO s) (wasDropTO s) (hOpen s) (hClose s) (hDrop s) (hPing s) (hPingTO s) (nextId s) (timers s) (pingPending s) (pingSeq s) (closingSince s) (lastPeerClose s).
+  mkS (st s) (now s) (gone s) (closedByMe s) (failedByMe s) (droppedByMe s) (wasClean s) v (localCode s) (localReason s) (remoteCode s) (remoteReason s) (wasOpenTO s) (wasCloseTO s) (wasDropTO s) (hOpen s) (hClose s) (hDrop s) (hPing s) (hPingTO s) (nextId s) (timers s) (pingPending s) (pingSeq s) (closingSince s) (lastPeerClose s) (proxyPending s).
 Definition set_localCode (v : option N) (s : cstate) : cstate :=
-  mkS (st s) (now s) (gone s) (closedByMe s) (failedByMe s) (droppedByMe s) (wasClean s) (ncr s) v (localReason s) (remoteCode s) (remoteReason s) (wasOpenTO s) (wasCloseTO s) (wasDropTO s) (hOpen s) (hClose s) (hDrop s) (hPing s) (hPingTO s) (nextId s) (timers s) (pingPending s) (pingSeq s) (closingSince s) (lastPeerClose s).
+  mkS (st s) (now s) (gone s) (closedByMe s) (failedByMe s) (droppedByMe s) (wasClean s) (ncr s) v (localReason s) (remoteCode s) (remoteReason s) (wasOpenTO s) (wasCloseTO s) (wasDropTO s) (hOpen s) (hClose s) (hDrop s) (hPing s) (hPingTO s) (nextId s) (timers s) (pingPending s) (pingSeq s) (closingSince s) (lastPeerClose s) (proxyPending s).
 Definition set_localReason (v : option (list N)) (s : cstate) : cstate :=
-  mkS (st s) (now s) (gone s) (closedByMe s) (failedByMe s) (droppedByMe s) (wasClean s) (ncr s) (localCode s) v (remoteCode s) (remoteReason s) (wasOpenTO s) (wasCloseTO s) (wasDropTO s) (hOpen s) (hClose s) (hDrop s) (hPing s) (hPingTO s) (nextId s) (timers s) (pingPending s) (pingSeq s) (closingSince s) (lastPeerClose s).
+  mkS (st s) (now s) (gone s) (closedByMe s) (failedByMe s) (droppedByMe s) (wasClean s) (ncr s) (localCode s) v (remoteCode s) (remoteReason s) (wasOpenTO s) (wasCloseTO s) (wasDropTO s) (hOpen s) (hClose s) (hDrop s) (hPing s) (hPingTO s) (nextId s) (timers s) (pingPending s) (pingSeq s) (closingSince s) (lastPeerClose s) (proxyPending s).
 Definition set_remoteCode (v : option N) (s : cstate) : cstate :=
-  mkS (st s) (now s) (gone s) (closedByMe s) (failedByMe s) (droppedByMe s) (wasClean s) (ncr s) (localCode s) (localReason s) v (remoteReason s) (wasOpenTO s) (wasCloseTO s) (wasDropTO s) (hOpen s) (hClose s) (hDrop s) (hPing s) (hPingTO s) (nextId s) (timers s) (pingPending s) (pingSeq s) (closingSince s) (lastPeerClose s).
+  mkS (st s) (now s) (gone s) (closedByMe s) (failedByMe s) (droppedByMe s) (wasClean s) (ncr s) (localCode s) (localReason s) v (remoteReason s) (wasOpenTO s) (wasCloseTO s) (wasDropTO s) (hOpen s) (hClose s) (hDrop s) (hPing s) (hPingTO s) (nextId s) (timers s) (pingPending s) (pingSeq s) (closingSince s) (lastPeerClose s) (proxyPending s).
 Definition set_remoteReason (v : option (list N)) (s : cstate) : cstate :=
-  mkS (st s) (now s) (gone s) (closedByMe s) (failedByMe s) (droppedByMe s) (wasClean s) (ncr s) (localCode s) (localReason s) (remoteCode s) v (wasOpenTO s) (wasCloseTO s) (wasDropTO s) (hOpen s) (hClose s) (hDrop s) (hPing s) (hPingTO s) (nextId s) (timers s) (pingPending s) (pingSeq s) (closingSince s) (lastPeerClose s).
+  mkS (st s) (now s) (gone s) (closedByMe s) (failedByMe s) (droppedByMe s) (wasClean s) (ncr s) (localCode s) (localReason s) (remoteCode s) v (wasOpenTO s) (wasCloseTO s) (wasDropTO s) (hOpen s) (hClose s) (hDrop s) (hPing s) (hPingTO s) (nextId s) (timers s) (pingPending s) (pingSeq s) (closingSince s) (lastPeerClose s) (proxyPending s).
 Definition set_wasOpenTO (v : bool) (s : cstate) : cstate :=
-  mkS (st s) (now s) (gone s) (closedByMe s) (failedByMe s) (droppedByMe s) (wasClean s) (ncr s) (localCode s) (localReason s) (remoteCode s) (remoteReason s) v (wasCloseTO s) (wasDropTO s) (hOpen s) (hClose s) (hDrop s) (hPing s) (hPingTO s) (nextId s) (timers s) (pingPending s) (pingSeq s) (closingSince s) (lastPeerClose s).
+  mkS (st s) (now s) (gone s) (closedByMe s) (failedByMe s) (droppedByMe s) (wasClean s) (ncr s) (localCode s) (localReason s) (remoteCode s) (remoteReason s) v (wasCloseTO s) (wasDropTO s) (hOpen s) (hClose s) (hDrop s) (hPing s) (hPingTO s) (nextId s) (timers s) (pingPending s) (pingSeq s) (closingSince s) (lastPeerClose s) (proxyPending s).
 Definition set_wasCloseTO (v : bool) (s : cstate) : cstate :=
-  mkS (st s) (now s) (gone s) (closedByMe s) (failedByMe s) (droppedByMe s) (wasClean s) (ncr s) (localCode s) (localReason s) (remoteCode s) (remoteReason s) (wasOpenTO s) v (wasDropTO s) (hOpen s) (hClose s) (hDrop s) (hPing s) (hPingTO s) (nextId s) (timers s) (pingPending s) (pingSeq s) (closingSince s) (lastPeerClose s).
+  mkS (st s) (now s) (gone s) (closedByMe s) (failedByMe s) (droppedByMe s) (wasClean s) (ncr s) (localCode s) (localReason s) (remoteCode s) (remoteReason s) (wasOpenTO s) v (wasDropTO s) (hOpen s) (hClose s) (hDrop s) (hPing s) (hPingTO s) (nextId s) (timers s) (pingPending s) (pingSeq s) (closingSince s) (lastPeerClose s) (proxyPending s).
 Definition set_wasDropTO (v : bool) (s : cstate) : cstate :=
-  mkS (st s) (now s) (gone s) (closedByMe s) (failedByMe s) (droppedByMe s) (wasClean s) (ncr s) (localCode s) (localReason s) (remoteCode s) (remoteReason s) (wasOpenTO s) (wasCloseTO s) v (hOpen s) (hClose s) (hDrop s) (hPing s) (hPingTO s) (nextId s) (timers s) (pingPending s) (pingSeq s) (closingSince s) (lastPeerClose s).
+  mkS (st s) (now s) (gone s) (closedByMe s) (failedByMe s) (droppedByMe s) (wasClean s) (ncr s) (localCode s) (localReason s) (remoteCode s) (remoteReason s) (wasOpenTO s) (wasCloseTO s) v (hOpen s) (hClose s) (hDrop s) (hPing s) (hPingTO s) (nextId s) (timers s) (pingPending s) (pingSeq s) (closingSince s) (lastPeerClose s) (proxyPending s).
 Definition set_hOpen (v : option N) (s : cstate) : cstate :=
-  mkS (st s) (now s) (gone s) (closedByMe s) (failedByMe s) (droppedByMe s) (wasClean s) (ncr s) (localCode s) (localReason s) (remoteCode s) (remoteReason s) (wasOpenTO s) (wasCloseTO s) (wasDropTO s) v (hClose s) (hDrop s) (hPing s) (hPingTO s) (nextId s) (timers s) (pingPending s) (pingSeq s) (closingSince s) (lastPeerClose s).
+  mkS (st s) (now s) (gone s) (closedByMe s) (failedByMe s) (droppedByMe s) (wasClean s) (ncr s) (localCode s) (localReason s) (remoteCode s) (remoteReason s) (wasOpenTO s) (wasCloseTO s) (wasDropTO s) v (hClose s) (hDrop s) (hPing s) (hPingTO s) (nextId s) (timers s) (pingPending s) (pingSeq s) (closingSince s) (lastPeerClose s) (proxyPending s).
 Definition set_hClose (v : option N) (s : cstate) : cstate :=
-  mkS (st s) (now s) (gone s) (closedByMe s) (failedByMe s) (droppedByMe s) (wasClean s) (ncr s) (localCode s) (localReason s) (remoteCode s) (remoteReason s) (wasOpenTO s) (wasCloseTO s) (wasDropTO s) (hOpen s) v (hDrop s) (hPing s) (hPingTO s) (nextId s) (timers s) (pingPending s) (pingSeq s) (closingSince s) (lastPeerClose s).
+  mkS (st s) (now s) (gone s) (closedByMe s) (failedByMe s) (droppedByMe s) (wasClean s) (ncr s) (localCode s) (localReason s) (remoteCode s) (remoteReason s) (wasOpenTO s) (wasCloseTO s) (wasDropTO s) (hOpen s) v (hDrop s) (hPing s) (hPingTO s) (nextId s) (timers s) (pingPending s) (pingSeq s) (closingSince s) (lastPeerClose s) (proxyPending s).
 Definition set_hDrop (v : option N) (s : cstate) : cstate :=
-  mkS (st s) (now s) (gone s) (closedByMe s) (failedByMe s) (droppedByMe s) (wasClean s) (ncr s) (localCode s) (localReason s) (remoteCode s) (remoteReason s) (wasOpenTO s) (wasCloseTO s) (wasDropTO s) (hOpen s) (hClose s) v (hPing s) (hPingTO s) (nextId s) (timers s) (pingPending s) (pingSeq s) (closingSince s) (lastPeerClose s).
+  mkS (st s) (now s) (gone s) (closedByMe s) (failedByMe s) (droppedByMe s) (wasClean s) (ncr s) (localCode s) (localReason s) (remoteCode s) (remoteReason s) (wasOpenTO s) (wasCloseTO s) (wasDropTO s) (hOpen s) (hClose s) v (hPing s) (hPingTO s) (nextId s) (timers s) (pingPending s) (pingSeq s) (closingSince s) (lastPeerClose s) (proxyPending s).
 Definition set_hPing (v : option N) (s : cstate) : cstate :=
-  mkS (st s) (now s) (gone s) (closedByMe s) (failedByMe s) (droppedByMe s) (wasClean s) (ncr s) (localCode s) (localReason s) (remoteCode s) (remoteReason s) (wasOpenTO s) (wasCloseTO s) (wasDropTO s) (hOpen s) (hClose s) (hDrop s) v (hPingTO s) (nextId s) (timers s) (pingPending s) (pingSeq s) (closingSince s) (lastPeerClose s).
+  mkS (st s) (now s) (gone s) (closedByMe s) (failedByMe s) (droppedByMe s) (wasClean s) (ncr s) (localCode s) (localReason s) (remoteCode s) (remoteReason s) (wasOpenTO s) (wasCloseTO s) (wasDropTO s) (hOpen s) (hClose s) (hDrop s) v (hPingTO s) (nextId s) (timers s) (pingPending s) (pingSeq s) (closingSince s) (lastPeerClose s) (proxyPending s).
 Definition set_hPingTO (v : option N) (s : cstate) : cstate :=
-  mkS (st s) (now s) (gone s) (closedByMe s) (failedByMe s) (droppedByMe s) (wasClean s) (ncr s) (localCode s) (localReason s) (remoteCode s) (remoteReason s) (wasOpenTO s) (wasCloseTO s) (wasDropTO s) (hOpen s) (hClose s) (hDrop s) (hPing s) v (nextId s) (timers s) (pingPending s) (pingSeq s) (closingSince s) (lastPeerClose s).
+  mkS (st s) (now s) (gone s) (closedByMe s) (failedByMe s) (droppedByMe s) (wasClean s) (ncr s) (localCode s) (localReason s) (remoteCode s) (remoteReason s) (wasOpenTO s) (wasCloseTO s) (wasDropTO s) (hOpen s) (hClose s) (hDrop s) (hPing s) v (nextId s) (timers s) (pingPending s) (pingSeq s) (closingSince s) (lastPeerClose s) (proxyPending s).
 Definition set_nextId (v : N) (s : cstate) : cstate :=
-  mkS (st s) (now s) (gone s) (closedByMe s) (failedByMe s) (droppedByMe s) (wasClean s) (ncr s) (localCode s) (localReason s) (remoteCode s) (remoteReason s) (wasOpenTO s) (wasCloseTO s) (wasDropTO s) (hOpen s) (hClose s) (hDrop s) (hPing s) (hPingTO s) v (timers s) (pingPending s) (pingSeq s) (closingSince s) (lastPeerClose s).
+  mkS (st s) (now s) (gone s) (closedByMe s) (failedByMe s) (droppedByMe s) (wasClean s) (ncr s) (localCode s) (localReason s) (remoteCode s) (remoteReason s) (wasOpenTO s) (wasCloseTO s) (wasDropTO s) (hOpen s) (hClose s) (hDrop s) (hPing s) (hPingTO s) v (timers s) (pingPending s) (pingSeq s) (closingSince s) (lastPeerClose s) (proxyPending s).
 Definition set_timers (v : list tentry) (s : cstate) : cstate :=
-  mkS (st s) (now s) (gone s) (closedByMe s) (failedByMe s) (droppedByMe s) (wasClean s) (ncr s) (localCode s) (localReason s) (remoteCode s) (remoteReason s) (wasOpenTO s) (wasCloseTO s) (wasDropTO s) (hOpen s) (hClose s) (hDrop s) (hPing s) (hPingTO s) (nextId s) v (pingPending s) (pingSeq s) (closingSince s) (lastPeerClose s).
+  mkS (st s) (now s) (gone s) (closedByMe s) (failedByMe s) (droppedByMe s) (wasClean s) (ncr s) (localCode s) (localReason s) (remoteCode s) (remoteReason s) (wasOpenTO s) (wasCloseTO s) (wasDropTO s) (hOpen s) (hClose s) (hDrop s) (hPing s) (hPingTO s) (nextId s) v (pingPending s) (pingSeq s) (closingSince s) (lastPeerClose s) (proxyPending s).
 Definition set_pingPending (v : option N) (s : cstate) : cstate :=
-  mkS (st s) (now s) (gone s) (closedByMe s) (failedByMe s) (droppedByMe s) (wasClean s) (ncr s) (localCode s) (localReason s) (remoteCode s) (remoteReason s) (wasOpenTO s) (wasCloseTO s) (wasDropTO s) (hOpen s) (hClose s) (hDrop s) (hPing s) (hPingTO s) (nextId s) (timers s) v (pingSeq s) (closingSince s) (lastPeerClose s).
+  mkS (st s) (now s) (gone s) (closedByMe s) (failedByMe s) (droppedByMe s) (wasClean s) (ncr s) (localCode s) (localReason s) (remoteCode s) (remoteReason s) (wasOpenTO s) (wasCloseTO s) (wasDropTO s) (hOpen s) (hClose s) (hDrop s) (hPing s) (hPingTO s) (nextId s) (timers s) v (pingSeq s) (closingSince s) (lastPeerClose s) (proxyPending s).
 Definition set_pingSeq (v : N) (s : cstate) : cstate :=
-  mkS (st s) (now s) (gone s) (closedByMe s) (failedByMe s) (droppedByMe s) (wasClean s) (ncr s) (localCode s) (localReason s) (remoteCode s) (remoteReason s) (wasOpenTO s) (wasCloseTO s) (wasDropTO s) (hOpen s) (hClose s) (hDrop s) (hPing s) (hPingTO s) (nextId s) (timers s) (pingPending s) v (closingSince s) (lastPeerClose s).
+  mkS (st s) (now s) (gone s) (closedByMe s) (failedByMe s) (droppedByMe s) (wasClean s) (ncr s) (localCode s) (localReason s) (remoteCode s) (remoteReason s) (wasOpenTO s) (wasCloseTO s) (wasDropTO s) (hOpen s) (hClose s) (hDrop s) (hPing s) (hPingTO s) (nextId s) (timers s) (pingPending s) v (closingSince s) (lastPeerClose s) (proxyPending s).
 Definition set_closingSince (v : option N) (s : cstate) : cstate :=
-  mkS (st s) (now s) (gone s) (closedByMe s) (failedByMe s) (droppedByMe s) (wasClean s) (ncr s) (localCode s) (localReason s) (remoteCode s) (remoteReason s) (wasOpenTO s) (wasCloseTO s) (wasDropTO s) (hOpen s) (hClose s) (hDrop s) (hPing s) (hPingTO s) (nextId s) (timers s) (pingPending s) (pingSeq s) v (lastPeerClose s).
+  mkS (st s) (now s) (gone s) (closedByMe s) (failedByMe s) (droppedByMe s) (wasClean s) (ncr s) (localCode s) (localReason s) (remoteCode s) (remoteReason s) (wasOpenTO s) (wasCloseTO s) (wasDropTO s) (hOpen s) (hClose s) (hDrop s) (hPing s) (hPingTO s) (nextId s) (timers s) (pingPending s) (pingSeq s) v (lastPeerClose s) (proxyPending s).
 Definition set_lastPeerClose (v : option peer_close) (s : cstate) : cstate :=
-  mkS (st s) (now s) (gone s) (closedByMe s) (failedByMe s) (droppedByMe s) (wasClean s) (ncr s) (localCode s) (localReason s) (remoteCode s) (remoteReason s) (wasOpenTO s) (wasCloseTO s) (wasDropTO s) (hOpen s) (hClose s) (hDrop s) (hPing s) (hPingTO s) (nextId s) (timers s) (pingPending s) (pingSeq s) (closingSince s) v.
+  mkS (st s) (now s) (gone s) (closedByMe s) (failedByMe s) (droppedByMe s) (wasClean s) (ncr s) (localCode s) (localReason s) (remoteCode s) (remoteReason s) (wasOpenTO s) (wasCloseTO s) (wasDropTO s) (hOpen s) (hClose s) (hDrop s) (hPing s) (hPingTO s) (nextId s) (timers s) (pingPending s) (pingSeq s) (closingSince s) v (proxyPending s).
+Definition set_proxyPending (v : bool) (s : cstate) : cstate :=
+  mkS (st s) (now s) (gone s) (closedByMe s) (failedByMe s) (droppedByMe s) (wasClean s) (ncr s) (localCode s) (localReason s) (remoteCode s) (remoteReason s) (wasOpenTO s) (wasCloseTO s) (wasDropTO s) (hOpen s) (hClose s) (hDrop s) (hPing s) (hPingTO s) (nextId s) (timers s) (pingPending s) (pingSeq s) (closingSince s) (lastPeerClose s) v.
 
 (* ---------- a small writer/state monad: every handler is a function cstate -> cstate * outputs ---------- *)
 Definition M := cstate -> cstate * list out.
@@ -346,10 +350,10 @@ Definition fail_connection (c : cfg) (code : N) (txt : list N) : M :=
                  (send_close_frame c OFail (Some code) (Some (encode_truncate txt 123)) false))).
 
 (* ---------- protocol.py: onCloseFrame ---------- *)
-(* reserved close codes: code < 1000, 1000..2999 not in CLOSE_STATUS_CODES_ALLOWED, >= 5000 *)
-Definition close_code_invalid (code : N) : bool :=
-  (code <? 1000) || ((1000 <=? code) && (code <=? 2999) && negb (existsb (N.eqb code) close_codes_allowed))
-  || (5000 <=? code).
+(* "code < 1000 or (1000 <= code <= 2999 and code not in CLOSE_STATUS_CODES_ALLOWED) or code >= 5000": the test is taken
+   from the source by the translator (evaluated for every 16-bit code) as the list of accepted intervals *)
+Definition in_range (cd : N) (r : N * N) : bool := (fst r <=? cd) && (cd <=? snd r).
+Definition close_code_invalid (code : N) : bool := negb (existsb (in_range code) close_code_valid_ranges).
 
 Definition on_close_dispatch (c : cfg) : M :=
   bindS (fun s0 =>
@@ -511,6 +515,8 @@ Definition conn_lost (c : cfg) : M :=
 Inductive event :=
 | EHandshake                                   (* the peer's valid opening handshake arrives *)
 | EBadHandshake                                (* the peer's opening handshake is invalid: failHandshake *)
+| EProxyOk                                     (* client with factory.proxy: the proxy answers the CONNECT with 2xx *)
+| EProxyBad                                    (* ... with anything else: failProxyConnect *)
 | ESendClose (code : option N) (reason : option (list N))    (* API sendClose(code, reason); reason = UTF-8 octets of the str *)
 | ESendMessage | ESendPing | ESendPong
 | EPeerClose (body : option (N * option (list N))) (txt : list N)
@@ -549,12 +555,20 @@ Definition handshake_bad (c : cfg) : M :=
 
 Definition frames_flow (s : cstate) : bool :=     (* consumeData processes frames in OPEN and CLOSING only *)
   negb (gone s) && (wstate_eqb (st s) OPEN || wstate_eqb (st s) CLOSING).
-Definition connecting (s : cstate) : bool := negb (gone s) && wstate_eqb (st s) CONNECTING.
+(* STATE_PROXY_CONNECTING is modelled as CONNECTING with [proxyPending] set: the two states differ only in what
+   consumeData does with incoming octets (processProxyConnect / processHandshake); every other test in the code treats
+   them alike (onOpenHandshakeTimeout, sendCloseFrame, _dataReceived, _send) *)
+Definition connecting (s : cstate) : bool := negb (gone s) && wstate_eqb (st s) CONNECTING && negb (proxyPending s).
+Definition proxy_connecting (s : cstate) : bool := negb (gone s) && wstate_eqb (st s) CONNECTING && proxyPending s.
 
 Definition handle (c : cfg) (e : event) : M :=
   match e with
   | EHandshake => ifS connecting (handshake_ok c) ret
   | EBadHandshake => ifS connecting (handshake_bad c) ret
+  (* processProxyConnect: state = STATE_CONNECTING; startHandshake() writes the opening-handshake request.  The
+     opening-handshake timer armed by _connectionMade keeps running *)
+  | EProxyOk => ifS proxy_connecting (upd (set_proxyPending false) ;; say WHttp) ret
+  | EProxyBad => ifS proxy_connecting (drop_connection true) ret            (* failProxyConnect *)
   | ESendClose code reason => send_close c code reason
   | ESendMessage => send_message
   | ESendPing => send_ping None
@@ -590,10 +604,10 @@ Definition step (c : cfg) (s : cstate) (e : event) : cstate * list out := handle
 (* protocol.py: _connectionMade *)
 Definition init0 (c : cfg) : cstate :=
   mkS CONNECTING (t_start c) false false false false false RNone None None None None false false false
-      None None None None None 0 [] None 0 None None.
+      None None None None None 0 [] None 0 None None (negb (is_server c) && c_proxy c).
 Definition init (c : cfg) : cstate :=
   fst (whenM (0 <? openHandshakeTimeout c) (arm_batched TOpenHS (openHandshakeTimeout c)) (init0 c)).
-(* client _connectionMade: startHandshake writes the opening-handshake request *)
+(* client _connectionMade: startHandshake writes the opening-handshake request (startProxyConnect: the CONNECT request) *)
 Definition init_out (c : cfg) : list out := if is_server c then [] else [(t_start c, WHttp)].
 
 Definition run_from (c : cfg) (s : cstate) (log : list out) (evs : list event) : cstate * list out :=
